@@ -6,6 +6,7 @@
   labsim selftest sensitivity [ids] built-in mutants of /repo in a scratch copy: the property's
                                     quick check must report a violation for each
   labsim selftest tzexec [n]        tzset()-in-forked-child == TZ at process start-up
+  labsim selftest cold [n]          cold context == fork context, and repeatable under other environments
   labsim selftest oracles           every clause of the C04 / C12 models fires on a hand-made counter-example
   labsim selftest digests <sim> <n> <workers> <start>   (internal) print digests as JSON
 """
@@ -306,6 +307,8 @@ def main(argv):
         return tzexec(argv[1:])
     if argv[0] == "oracles":
         return oracles(argv[1:])
+    if argv[0] == "cold":
+        return cold(argv[1:])
     if argv[0] == "digests":
         sim, n, workers, start = argv[1], int(argv[2]), int(argv[3]), int(argv[4])
         print(json.dumps(_digests(sim, n, workers, start)))
@@ -444,3 +447,30 @@ def oracles(argv):
         f.write("\n")
     print("ORACLES " + ("OK" if ok else "FAILED"))
     return 0 if ok else 2
+
+
+def cold(argv):
+    """The cold context (fresh interpreter, ASLR off, fixed environment) is
+    exactly repeatable and agrees with the fork-from-pristine context on the
+    real tree: n plans per simulation, each executed cold twice under different
+    caller environments, and once through the ordinary fork path."""
+    from .util import import_labella
+
+    import_labella()
+    n = int(argv[0]) if argv else 12
+    bad = 0
+    for name in ("scale", "engine", "timeline"):
+        sim = driver.load_sim(name)
+        for i in range(n):
+            plan = driver.make_plan(sim, 4242, i, "quick")
+            a = sim.execute(dict(plan, cold=True))
+            os.environ["LABSIM_SELFTEST_NOISE"] = "x" * (17 * (i + 1))
+            b = sim.execute(dict(plan, cold=True))
+            os.environ.pop("LABSIM_SELFTEST_NOISE")
+            c = sim.execute(plan)
+            if not (a["digest"] == b["digest"] == c["digest"]):
+                bad += 1
+                print("cold mismatch sim=%s run=%d: %s %s %s" % (name, i, a["digest"][:8], b["digest"][:8], c["digest"][:8]))
+        print("cold sim=%s: %d plans x (cold, cold under another environment, fork): mismatches so far %d" % (name, n, bad))
+    print("COLD " + ("OK" if not bad else "FAILED"))
+    return 0 if not bad else 2
